@@ -417,9 +417,22 @@ impl State {
 /// The process-wide hook installed into `fast_qr::verif_hooks`. Threads that
 /// are not simulation tasks see a no-op.
 pub fn hook(site: &'static str) {
+    hook_impl(site, true)
+}
+
+/// A scheduling point that must never unwind (it is reached inside an `extern "C"` frame:
+/// the system-call shims). It yields like any other point but is never a crash point.
+pub fn hook_no_unwind(site: &'static str) {
+    hook_impl(site, false)
+}
+
+fn hook_impl(site: &'static str, may_crash: bool) {
     let info = CUR.with(|c| {
         let mut b = c.borrow_mut();
         b.as_mut().map(|t| {
+            if !may_crash {
+                return (t.sim.clone(), t.id, false);
+            }
             let n = t.op_points;
             t.op_points += 1;
             let mut crash = t.crash_at == Some(n);
